@@ -40,6 +40,8 @@ class _Gens:
         self.by_name = {}
         self.by_pow = {}
         self.by_fun = {}
+        self.by_ofun = {}
+        self.ofun_dname = {}  # name -> callable(name, k) -> derivative atom name (or None: default)
         self.custom_deriv = {}  # (gid, xgid) -> Poly
         self.dcache = {}
         self.deps_cache = {}
@@ -99,7 +101,11 @@ def _nexp(e):
 def _factor_int(n):
     fs = {}
     d = 2
+    if n > 10 ** 24:
+        raise Undecided("root of a large rational constant (factoring %d digits)" % len(str(n)))
     while d * d <= n:
+        if d > 2000000:
+            raise Undecided("root of a large rational constant")
         while n % d == 0:
             fs[d] = fs.get(d, 0) + 1
             n //= d
@@ -355,15 +361,15 @@ class Poly:
     def _cmp(self, o, op):
         o = _coerce(o)
         d = self - o
+        if not d.is_const() and ORDER_ORACLE[0] is not None:
+            r = ORDER_ORACLE[0](self, o, op)
+            if r is not None:
+                return r
         if not d.is_const():
             d = normal(d)
         if d.is_const():
             v = d.const_value()
             return {"<": v < 0, "<=": v <= 0, ">": v > 0, ">=": v >= 0}[op]
-        if ORDER_ORACLE[0] is not None:
-            r = ORDER_ORACLE[0](self, o, op)
-            if r is not None:
-                return r
         raise Undecided("order comparison on symbolic data: (%s) %s (%s)" % (self, op, o))
 
     def __lt__(self, o):
@@ -583,6 +589,9 @@ def power(b, e):
                 r = r * Poly({((g, _nexp(x * e)),): F1})
         return r
     c, q = _content_split(b)
+    if c < 0:
+        # keep the sign inside the base: (-|c| q)**e = |c|**e * (-q)**e
+        c, q = -c, -q
     g = pow_atom(q)
     return const_pow(c, e) * Poly({((g, e),): F1})
 
@@ -650,6 +659,31 @@ def _fun_gen(fname, arg):
     return Poly.gen(gid)
 
 
+def ofun(name, args):
+    """opaque function atom name(args...) of several ring-valued arguments; d/dx = sum_k D_k name (args) * d args[k]/dx,
+    the derivative atom's name being given by the rule registered with set_ofun_rule (default name;k)"""
+    args = tuple(P(a) for a in args)
+    k = (name, tuple(_key(a) for a in args))
+    gid = G.by_ofun.get(k)
+    if gid is None:
+        gid = G.new(kind="ofun", name=name, args=args)
+        G.by_ofun[k] = gid
+    return Poly.gen(gid)
+
+
+def set_ofun_rule(prefix, fn):
+    G.ofun_dname[prefix] = fn
+
+
+def _ofun_dname(name, k):
+    for prefix, fn in G.ofun_dname.items():
+        if name.startswith(prefix):
+            r = fn(name, k)
+            if r is not None:
+                return r
+    return "%s;%d" % (name, k)
+
+
 PI = None
 
 
@@ -678,6 +712,12 @@ def _dgen(g, x):
                 r = G.custom_deriv.get(k, ZERO)
         elif kind == "pow":
             r = diff(inf["arg"], x)
+        elif kind == "ofun":
+            r = ZERO
+            for k, a in enumerate(inf["args"]):
+                da = diff(a, x)
+                if da.t:
+                    r = r + ofun(_ofun_dname(inf["name"], k), inf["args"]) * da
         else:
             a = inf["arg"]
             da = diff(a, x)
@@ -839,6 +879,9 @@ def all_syms(p, acc=None):
         inf = G.info[g]
         if inf["kind"] == "sym":
             acc.add(g)
+        elif inf["kind"] == "ofun":
+            for a in inf["args"]:
+                all_syms(a, acc)
         else:
             all_syms(inf["arg"], acc)
     return acc
@@ -901,6 +944,12 @@ def _subs_gen(g, mp, cache):
         inf = G.info[g]
         if inf["kind"] == "sym":
             r = mp.get(g)
+        elif inf["kind"] == "ofun":
+            nargs = [_subs(a, mp, cache) for a in inf["args"]]
+            if all(na.t == a.t for na, a in zip(nargs, inf["args"])):
+                r = None
+            else:
+                r = ofun(inf["name"], nargs)
         else:
             a = inf["arg"]
             if a.gens() & _closure(mp):
@@ -957,6 +1006,8 @@ def gen_name(g):
         return inf["name"]
     if inf["kind"] == "pow":
         return "(" + fmt(inf["arg"], 6) + ")"
+    if inf["kind"] == "ofun":
+        return "%s(..)" % inf["name"]
     return "%s(%s)" % (inf["fname"], fmt(inf["arg"], 6))
 
 
